@@ -51,7 +51,9 @@ fn main() {
     }
 
     // Library panics are part of what is observed (caught per case); keep stderr quiet.
-    std::panic::set_hook(Box::new(|_| {}));
+    if std::env::var("NVERIF_BT").is_err() {
+        std::panic::set_hook(Box::new(|_| {}));
+    }
 
     // a replay file records the tier its tape was generated for (decoders may depend on it)
     if let Some(path) = &replay {
